@@ -14,7 +14,7 @@ from mc import core, grammar, values
 
 ID = 'C13'
 META = {
-    'rule': "condition expressions = 61 atoms (val_range and len_range over all 16 (min,max) pairs each, Positive/Negative/NonNegative/"
+    'rule': "condition expressions = 63 atoms (val_range and len_range over all 16 (min,max) pairs each, Positive/Negative/NonNegative/"
             "NonPositive/Finite/Empty/NonEmpty, shape and broadcastable for 5 shapes incl. a list spelling, a raising predicate, a user "
             "predicate, a non-bool predicate) closed once (thorough: twice) under &, |, ~, Condition.all, Condition.any, plus 2-3 "
             "conditions on one Annotated; x inner types int/float/str/List[int]/Set[int]/Dict[str,int]/numpy.ndarray and element-level "
